@@ -248,6 +248,31 @@ def run_memory_case(case):
                 fh.write(good_code)
         _jm._FUNCTION_HASHES.clear()
         c(1, case["pad"])
+        # the entry's other companion: metadata.json cut at every length or over-long (ASCII, NUL and bytes that are
+        # not valid UTF-8, a second copy of itself) next to an intact output.pkl; with and without a validation callback
+        from joblib import expires_after as _expires_after
+        c_exp = mem.cache(vmod.f, cache_validation_callback=_expires_after(days=1))
+        meta_dams = [("cut%d" % k, good_meta[:k]) for k in range(len(good_meta))] + [
+            ("plus_" + nm, good_meta + sfx) for nm, sfx in (("nul", b"\x00"), ("ascii", b"x"), ("ff", b"\xff"), ("8081", b"\x80\x81"),
+                                                           ("c3", b"\xc3"), ("self", good_meta), ("json", b"\n{}"))]
+        for nm, md in (meta_dams if not case.get("mmap") and case["pad"] == 0 else ()):
+            for wi, wrapper in enumerate((c, c_exp)):
+                with open(mpath, "wb") as fh:
+                    fh.write(md)
+                n += 1
+                r, _ = load_budgeted(lambda: wrapper(1, case["pad"]), budget)
+                h.update(("meta%s%d:%s;" % (nm, wi, r[0])).encode())
+                if verdict is None and (r[0] != "ok" or r[1] != want):
+                    verdict = {"class": "memory_call_raises" if r[0] == "exc" else "memory_returns_garbage",
+                               "detail": "metadata.json %s (%d -> %d bytes) next to an intact output.pkl%s: cached call gave %s" % (
+                                   nm, len(good_meta), len(md), ", expires_after" if wi else "", r[:2]),
+                               "sig": {"what": "memory_call_raises" if r[0] == "exc" else "memory_returns_garbage", "file": "metadata.json",
+                                       "exc": r[1] if r[0] == "exc" else None}}
+                os.makedirs(os.path.dirname(path), exist_ok=True)
+                with open(path, "wb") as fh:
+                    fh.write(good)
+                with open(mpath, "wb") as fh:
+                    fh.write(good_meta)
         for dmg in dams:
             with open(path, "wb") as fh:
                 fh.write(damaged(good, dmg, good))
